@@ -198,6 +198,29 @@ fn group_section(ctx: &Ctx, out: &mut String, rng: &mut rand_chacha::ChaCha20Rng
         });
         let _ = writeln!(out, "decode {} -> {:?}", hx(s), r);
     }
+    // the same 32 bytes stored at every distance from a 16-byte boundary (as an Encoding inside a larger record
+    // and as a sub-slice): parsing must not depend on the address of its input
+    for (i, (s, _)) in strings.iter().enumerate().take(16 * 12) {
+        if i % nshards != shard {
+            continue;
+        }
+        let a = arr32(s);
+        for off in 0..16usize {
+            let r = g(|| {
+                crate::encp::with_placed(off, a, 0x08, &|e: &Encoding| {
+                    use std::convert::TryFrom;
+                    let d1 = match e.vartime_decompress() { Ok(x) => format!("ok {}", hx(&enc(&x))), Err(x) => format!("err {x:?}") };
+                    let d2 = match El::try_from(&e.0[..]) { Ok(x) => format!("ok {}", hx(&enc(&x))), Err(x) => format!("err {x:?}") };
+                    let d3 = match El::try_from(e) { Ok(x) => format!("ok {}", hx(&enc(&x))), Err(x) => format!("err {x:?}") };
+                    let f1 = Fq::from_bytes_checked(&e.0).map(|x| hx(&x.to_bytes_le())).map_err(|_| "err");
+                    let f2 = Fr::from_bytes_checked(&e.0).map(|x| hx(&x.to_bytes_le())).map_err(|_| "err");
+                    let f3 = hx(&Fq::from_le_bytes_mod_order(&e.0[..]).to_bytes_le());
+                    format!("{d1} | {d2} | {d3} | {f1:?} | {f2:?} | {f3}")
+                })
+            });
+            let _ = writeln!(out, "decode-placed {} off={off} -> {:?}", hx(s), r);
+        }
+    }
     for len in 0..=64usize {
         if len % nshards != shard {
             continue;
